@@ -27,6 +27,24 @@ CHECKS.update({
             "DESIGN.md §2 C10"),
 })
 
+CHECKS.update({
+    "C02": ("exploration",
+            "strict server-grade parser on every byte passed to sendall() vs an independent intended-command builder",
+            "Every public key-taking operation is called with hostile keys (every byte class at every position of short keys, empty/whitespace-only keys, protocol text, boundary lengths with and without prefix, str/bytes, unicode on/off), values containing protocol text, integers over the protocol ranges and non-integers, and one bad key at each position of multi-key calls, on Client, PooledClient and HashClient; the bytes written to the injected socket are read by a strict parser and must be exactly the commands an independent builder derives from the arguments, or nothing at all with an input error.",
+            "Trusts the strict reader and the intended-command builder (both written from protocol.txt / the statement, never calling the library); raw_command, stats arguments, bool-as-int, negative delta/delay and non-integer flags are outside the statement.",
+            "DESIGN.md §2 C02"),
+    "C03": ("exploration",
+            "differential monitor over recv() delivery schedules chosen at the socket_module seam (whole delivery, itself checked against the reference server, is the oracle)",
+            "For a corpus of ~85 request/reply scenarios (all three reader paths: line, sized value, end-token segment; error lines; the ElastiCache config reply through the real AWS client) the same reply stream is delivered under every subset of cut positions for streams up to 14 bytes (20 thorough), all 1-/2-/3-cut sets (sampled above a size), single bytes, RECV_SIZE-aligned cuts and EINTR before pieces; the call must return exactly what it returns for one-piece delivery.",
+            "recv(n) honours n; the corpus is finite; 2-/3-cut sets for long streams are sampled.",
+            "DESIGN.md §2 C03"),
+    "C20": ("exploration",
+            "runtime contract (icontract postcondition + raise-path recorder on the real check_key_helper, patched into base and hash) vs an independent legality predicate; wire bytes via FakeNet",
+            "check_key_helper, Client.check_key, PooledClient.check_key and HashClient operations are driven with all keys of length 1..3 over 11 byte classes, every byte value at every position of 10-byte keys and boundary positions of 250-byte keys, every code point up to U+02FF in str keys, byte lengths 248..252 with multi-byte UTF-8 and prefixes 0..250; accept/reject, the returned wire key, the exception type and the bytes on the wire are compared with the predicate written from the statement.",
+            "Trusts the 10-line legality predicate; the empty prefixed key, lone surrogates and non-str/bytes keys are excluded by the statement.",
+            "DESIGN.md §2 C20"),
+})
+
 NOT_YET = "check not built yet in this round (runtime-monitoring design in DESIGN.md §2); will be claimed once its monitor exists"
 
 manifest = {
